@@ -80,6 +80,8 @@ pub open spec fn rerun_kind(c: Command) -> bool {
     c is Browse || c is ResolveHostname || c is Resolve || c is Verify || c is UnregisterResend || c is RegisterResend
 }
 pub open spec fn rerun_ok(c: Command) -> bool { cmd_ok(c) && rerun_kind(c) }
+// every hostname search is stored under a lower-cased name (add_hostname_resolver is the only inserter)
+pub open spec fn keys_lower(z: Zeroconf) -> bool { forall|k: String| #[trigger] z.hostname_resolvers@.contains_key(k) ==> lower(k@) == k@ }
 pub open spec fn queue_ok(z: Zeroconf) -> bool {
     forall|i: int| 0 <= i < z.retransmissions@.len() ==> rerun_ok((#[trigger] z.retransmissions@[i]).command)
 }
@@ -204,14 +206,15 @@ impl Zeroconf {
     pub fn process_set_option(&mut self, daemon_opt: DaemonOption)
         ensures final(self).retransmissions == old(self).retransmissions, final(self).timers == old(self).timers,
             interval_ok(*old(self)) ==> interval_ok(*final(self)),   // the only writer of ip_check_interval; fed by set_ip_check_interval(u32)
+            final(self).hostname_resolvers == old(self).hostname_resolvers,   // options never touch the searches
     { unimplemented!() }
     #[verifier::external_body]
     pub fn del_interface_addr(&mut self, intf: &Interface)
-        ensures queue_ok(*old(self)) ==> queue_ok(*final(self)), cover_kept(*old(self), *final(self)), final(self).ip_check_interval == old(self).ip_check_interval,
+        ensures queue_ok(*old(self)) ==> queue_ok(*final(self)), cover_kept(*old(self), *final(self)), final(self).ip_check_interval == old(self).ip_check_interval, final(self).hostname_resolvers == old(self).hostname_resolvers,
     { unimplemented!() }
     #[verifier::external_body]
     pub fn check_ip_changes(&mut self)
-        ensures queue_ok(*old(self)) ==> queue_ok(*final(self)), cover_kept(*old(self), *final(self)), final(self).ip_check_interval == old(self).ip_check_interval,
+        ensures queue_ok(*old(self)) ==> queue_ok(*final(self)), cover_kept(*old(self), *final(self)), final(self).ip_check_interval == old(self).ip_check_interval, final(self).hostname_resolvers == old(self).hostname_resolvers,
     { unimplemented!() }
     #[verifier::external_body]
     pub fn send_cmd_to_self(&self, cmd: Command) -> (r: Result<()>) { unimplemented!() }
